@@ -38,7 +38,11 @@ TRUSTED = ['Lean 4.33.0 kernel; axioms ⊆ {propext, Classical.choice, Quot.soun
 RULE = ('streams: (api-clean) states built through the real ircdb API from line-safe values; (api-hostile) the same with '
         'values that break one clause of Storable (leading blank, TAB, CR/LF, empty, inverse capability pair, removed default '
         'anti-capability, huge expiry, # hostmask ...); (file) the real readers on generated/mutated files, with and without a '
-        'stale class-level creator; (micro) fileLines / parseLine / CapabilitySet.add. A case is non-trivial when it carries at '
+        'stale class-level creator; (micro) fileLines / parseLine / CapabilitySet.add / hostmaskPatternsIntersect; (resave) a second save over '
+        'an existing file under every AtomicFile configuration, with write faults, and of files of tens of KiB after a same-size '
+        'change. The round-trip oracle compares the records of the IrcDict-keyed databases (channels, networks) under the key '
+        'function of that container (ircutils.toLower), refusing any comparison in which two records fall together; which of the '
+        'spellings an IRC server treats as one name is written is compared with the model only. A case is non-trivial when it carries at '
         'least one tag (record kinds present, reader branches taken, error class); distinct = distinct input.')
 
 # ---------------------------------------------------------------------------------------------
@@ -158,6 +162,20 @@ def canon_chans(cs):
         c = dict(c); c['caps'] = sorted(c['caps']); c['bans'] = sorted(c['bans']); c['ignores'] = sorted(c['ignores'])
         out.append((n, c))
     return out
+
+def by_container_key(I, recs):
+    """records of an IrcDict (channels, networks) keyed the way the container itself compares keys (ircutils.toLower:
+    rfc1459 folding), sorted; None when two records would fall together under that key (they never may: an IrcDict
+    cannot hold both).  The property is about the same channels coming back; which of the spellings an IRC server
+    treats as one name stands in the file is compared in the model-vs-implementation correspondence only."""
+    keyed = [(I.ircutils.toLower(n), c) for n, c in recs]
+    if len({k for k, _ in keyed}) != len(keyed):
+        return None
+    return sorted(keyed, key=lambda p: p[0])
+
+def same_records(I, A, B):
+    a, b = by_container_key(I, A), by_container_key(I, B)
+    return a is not None and b is not None and a == b
 
 def enc_nets(ns):
     return '-' if not ns else '/'.join(wire.enc(n) + ':' + enc_entries(wire.enc, v['sts']) + ':' + enc_entries(str, v['last'])
@@ -651,7 +669,7 @@ def chans_roundtrip_case(I, cd, tags, kind, out, descr=None):
     c1 = Case(dict(inp, op='dump'), impl=wire.enc(text), kind=kind, tags=tuple(sorted(tags)) + ('c-dump',))
     out.append((c1, ['c_dump\t' + enc_chans(S0)], lambda o: o[0]))
     cls = classes_chans(I, S0)
-    ok = sorted(canon_chans(S0), key=lambda p: p[0]) == sorted(canon_chans(S1), key=lambda p: p[0]) and err == 'ok' and cn is None
+    ok = same_records(I, canon_chans(S0), canon_chans(S1)) and err == 'ok' and cn is None
     t = set(tags) | {'c-load', 'load-' + err}
     if not ok: t.add('differs')
     c2 = Case(dict(inp, op='roundtrip', text=text), kind=kind, tags=tuple(sorted(t)),
@@ -757,7 +775,7 @@ def nets_roundtrip_case(I, nd, tags, kind, out, descr=None):
     c1 = Case(dict(inp, op='dump'), impl=wire.enc(text), kind=kind, tags=tuple(sorted(tags)) + ('n-dump',))
     out.append((c1, ['n_dump\t' + enc_nets(S0)], lambda o: o[0]))
     cls = classes_nets(I, S0)
-    ok = sorted(canon_nets(drop_empty_nets(S0)), key=lambda p: p[0]) == sorted(canon_nets(drop_empty_nets(S1)), key=lambda p: p[0]) and err == 'ok'
+    ok = same_records(I, canon_nets(drop_empty_nets(S0)), canon_nets(drop_empty_nets(S1))) and err == 'ok'
     t = set(tags) | {'n-load', 'load-' + err}
     if len(drop_empty_nets(S0)) != len(S0): t.add('empty-network')
     if not ok: t.add('differs')
@@ -1046,7 +1064,7 @@ def _resave_cases(I, r, n, out, ufile, bdir, tdir, breg):
         elif which == 'channels':
             cd, _t = build_chans(I, r, False)
             if classes_chans(I, snap_chans(cd)): continue
-            obj = cd; snap = lambda: sorted(canon_chans(snap_chans(cd)), key=lambda p: p[0])
+            obj = cd; snap = lambda: by_container_key(I, canon_chans(snap_chans(cd)))
             def modify():
                 if r.random() < 0.3:
                     cd.channels.clear(); cd.flush() if False else None; return 'emptied'
@@ -1056,7 +1074,7 @@ def _resave_cases(I, r, n, out, ufile, bdir, tdir, breg):
         else:
             nd, _t = build_nets(I, r, False)
             if classes_nets(I, snap_nets(nd)): continue
-            obj = nd; snap = lambda: sorted(canon_nets(drop_empty_nets(snap_nets(nd))), key=lambda p: p[0])
+            obj = nd; snap = lambda: by_container_key(I, canon_nets(drop_empty_nets(snap_nets(nd))))
             def modify():
                 if r.random() < 0.3:
                     nd.networks.clear(); return 'emptied'
@@ -1103,7 +1121,7 @@ def _resave_cases(I, r, n, out, ufile, bdir, tdir, breg):
             ok = (C == A or C == B); want = 'the last saved state %r or the new one %r' % (A, B)
         else:
             ok = (C == B); want = 'the state that was flushed: %r' % (B,)
-        ok = ok and I.rec.exc is None and flush_exc is None
+        ok = ok and I.rec.exc is None and flush_exc is None and C is not None
         if flush_exc is not None:
             want = 'no exception from flush() (it raised %s: %s); ' % (type(flush_exc).__name__, flush_exc) + want
         tags = ('resave', which, what, 'resave-' + cfg_tag) + (('flush-failed',) if failed else ())
